@@ -145,6 +145,9 @@ pub fn panic_text(p: &Box<dyn std::any::Any + Send>) -> String {
 pub fn quiet_panics() {
     std::panic::set_hook(Box::new(|info| {
         let loc = info.location().map(|l| format!("{}:{}", l.file(), l.line())).unwrap_or_default();
+        if std::env::var_os("LAB_LOUD_PANICS").is_some() {
+            eprintln!("panic at {loc}: {}", info.payload().downcast_ref::<&str>().map(|s| s.to_string()).or_else(|| info.payload().downcast_ref::<String>().cloned()).unwrap_or_default());
+        }
         LAST_PANIC_LOC.with(|c| *c.borrow_mut() = loc);
     }));
 }
